@@ -323,7 +323,7 @@ func c14OverlapUnit(ov *c14Overlap, bound int, maxExecs int) *Unit {
 		}
 		st := vrt.Explore(cfg, body)
 		res.Execs, res.Points, res.Signatures, res.Outcomes = st.Execs, st.Points, st.Signatures, len(st.Outcomes)
-		res.BoundCompleted, res.Exhaustive = st.BoundCompleted, st.Exhaustive
+		res.BoundCompleted, res.Exhaustive, res.CapHit = st.BoundCompleted, st.Exhaustive, st.CapHit
 		res.Violations, res.HarnessErrors = st.Violations, st.HarnessErrors
 		res.Sample = map[string]any{"overlap": ov.name}
 		return res
